@@ -138,6 +138,43 @@ def module_chunk(specs):
     return out
 
 
+def claimlist_chunk(specs):
+    """modules declaring a LIST of claims (repetitions, adjacent or not) with their proofs in claim order: the claim file
+    publishes exactly that list (reversed), the proof file proves it in order"""
+    from . import bridge, c02
+    from proof_generation.proof import ProofExp
+    lib = c02.make_lib(light=True)
+    h = par.harness()
+    out = {'evals': 0, 'modules': 0, 'viol': []}
+    for claims in specs:
+        out['evals'] += 1
+        for opt in (False, True):
+            desc = {'shape': 'claim_list', 'claims': list(claims), 'repeated': len(set(claims)) < len(claims)}
+            try:
+                ths = [c02.build(c02.MULTI_POOL[i], lib) for i in claims]
+                m = ProofExp(axioms=list(lib.get_axioms()), notations=[], claims=[t.conc for t in ths], proof_expressions=ths)
+                g, c, p = pyrun.triple(pyrun.serialize_real(m, opt))
+            except Exception as ex:  # noqa: BLE001
+                out['viol'].append((dict(desc, kind='serialize_raises'), f'{desc}: serialize(optimize={opt}) raised {type(ex).__name__}: {str(ex)[:150]}'))
+                break
+            out['modules'] += 1
+            j, r = journal_of(g, c, p)
+            if j is None:
+                out['viol'].append((dict(desc, kind='reference_rejects', reason=str(r[1])), f'{desc}: reference machine cannot run the files (optimize={opt}): {r[:2]}'))
+                break
+            if not h.verify(g, c, p):
+                out['viol'].append((dict(desc, kind='checker_rejects'), f'{desc}: checker rejects (optimize={opt})'))
+            sm = SymMap()
+            want = [bridge.expand(t.conc) for t in ths]
+            cl = [t for k, t in j if k == 'claim']
+            pr = [t for k, t in j if k == 'proved']
+            if len(cl) != len(want) or not all(sm.unify(w, d) for w, d in zip(list(reversed(want)), cl)):
+                out['viol'].append((dict(desc, kind='claims_differ'), f'{desc} optimize={opt}: published claims {[rm.show(t) for t in cl]} declared {[rm.show(t) for t in want]}'))
+            if len(pr) != len(want) or not all(sm.unify(w, d) for w, d in zip(want, pr)):
+                out['viol'].append((dict(desc, kind='proved_differ'), f'{desc} optimize={opt}: proved {[rm.show(t) for t in pr]} declared {[rm.show(t) for t in want]}'))
+    return out
+
+
 def capacity_chunk(kind_n):
     """symbols / metavariable ids / memory slots around 256"""
     from . import bridge
@@ -252,6 +289,16 @@ def main(argv=None) -> int:
                     chk.violation(sig, sig, what)
             else:
                 agg[k] = agg.get(k, 0) + v
+    import itertools
+    from . import c02
+    lists = [cl for n in range(1, (5 if thorough else 4)) for cl in itertools.product(range(len(c02.MULTI_POOL)), repeat=n)]
+    for out in par.pmap(claimlist_chunk, par.chunks(lists, common.ncpu() * 2)):
+        for k, v in out.items():
+            if k == 'viol':
+                for sig, what in v:
+                    chk.violation(sig, sig, what)
+            else:
+                agg[k] = agg.get(k, 0) + v
     caps = [('symbols', n) for n in (1, 2, 255, 256, 257, 258, 300)] + [('evar_id', n) for n in (255, 256, 300)] + \
            [('metavar_id', n) for n in (255, 256)] + [('memory', n) for n in (255, 256, 257, 258)] + \
            [('memo', n) for n in (3, 200, 253, 254, 255, 256, 257, 300, 400)] + \
@@ -265,7 +312,7 @@ def main(argv=None) -> int:
     pyrun.cleanup()
     chk.set('evaluations', agg.get('modules', 0) + agg.get('capacity_cases', 0))
     chk.set('distinct_nontrivial', agg.get('modules', 0) + len(refused) + len(encoded))
-    chk.set('rule', 'every module spec of the grammar (shape x axiom tuple x claim mode x sharing) x optimise setting (one evaluation = one set of files decoded and compared), chain/diamond modules also re-serialised after a late add_axiom on each node, plus '
+    chk.set('rule', 'every module spec of the grammar (shape x axiom tuple x claim mode x sharing) x optimise setting (one evaluation = one set of files decoded and compared), chain/diamond modules also re-serialised after a late add_axiom on each node, every claim list of <=3/4 claims over a pool of four (repetitions included), plus '
                     'capacity cases; each spec is distinct by construction; all are non-trivial (a journal is decoded and compared)')
     chk.set('exhaustive', True)
     chk.set('capacity_refused', refused)
